@@ -55,8 +55,15 @@ pub fn generate_family(mut aaa: AAA, item_impl: &ItemImpl) -> ModelSdpl {
 
             let member_live_turbo = turbofish::from_type_path(&member_live_type);
 
+            // the constructor of a member carries the name and the return type 
+            // of the actor's constructor ( `new` or `try_new` )
+            let (member_new, member_unwrapped) = 
+            if let Some(MethodNew{ met, mod_output,..}) = &ams.met_new {
+                ( met.sig.ident.clone(), mod_output.unwrap_sign() )
+            } else { ( format_ident!("new"), None ) };
+
             member_invoks.push(quote!{
-                let #field = #member_live_turbo :: new( #(#member_idents_args .clone()),* ); 
+                let #field = #member_live_turbo :: #member_new ( #(#member_idents_args .clone()),* ) #member_unwrapped; 
             });
 
             member_init_vars.push( field.clone() );
